@@ -655,4 +655,7 @@ def _check_own_fields(repo: Repo, r: RuleResult) -> None:
 
 
 def rules(repo: Repo, tier: str) -> List[RuleResult]:
-    return [rule_global(repo), rule_fields(repo), rule_dedup(repo), rule_dummy(repo)]
+    from . import c08
+    return [rule_global(repo), rule_fields(repo), rule_dedup(repo), rule_dummy(repo),
+            # "exporting the combination and parsing it back succeeds": the writer keeps every constant of the union
+            c08.rule_allconstants(repo, "C17.export.constants")]
